@@ -147,8 +147,12 @@ def run_case(case):
     # ---------------------------------------------------------------- (a) closed form, cell by cell
     res = float(zm * rng.uniform(0.125, 2.0))
     ncell = int(rng.integers(12, 40))
-    wdkind = str(rng.choice(["none", "cardinal", "arbitrary"]))
+    wdkind = str(rng.choice(["none", "cardinal", "arbitrary", "near_cardinal"]))
     wd = None if wdkind == "none" else (float(rng.choice([0, 90, 180, 270])) if wdkind == "cardinal" else float(rng.uniform(0, 360)))
+    if wdkind == "near_cardinal":
+        # a hair beside a multiple of 90 degrees (what rad2deg(arctan2(-u, -v)) returns for a wind that is cardinal up to round-off)
+        c90 = float(rng.choice([90.0, 180.0, 270.0, 360.0]))
+        wd = float(rng.choice([np.nextafter(c90, 0.0), c90 - 1e-12, c90 - 1e-10, (c90 % 360.0) + 1e-12, (c90 % 360.0) + 1e-9]))
     half = ncell * res / 2
     mxy = (float(rng.uniform(-0.3, 0.3) * half), float(rng.uniform(-0.3, 0.3) * half))
     dom = (-half, half, -half * 0.8, half * 0.8)
